@@ -39,6 +39,9 @@ structure Cfg where
   lrefOrphan : Bool
   /-- #34: reader accepts unsigned tokens for data of type `p` (false today) -/
   dataPtr : Bool
+  /-- reader appends labels that follow the last insn of a function at `endfunc`
+      (false today: "endfunc should have no labels") -/
+  endfuncLabels : Bool
   /-- CURR_BIN_VERSION -/
   version : Nat
 deriving Repr, DecidableEq
